@@ -50,10 +50,13 @@ namespace c18
         o << " " << m(i, j).str();
   }
 
+  // raw CSR arrays; a container without arrays (SparseMatrixCSR(rows, cols)) prints three empty lists
   inline void show_csr(std::ostream& o, const MatrixType& m)
   {
-    o << m.rows() << " " << m.columns() << " " << (m.rows() + 1);
-    for(Index i(0); i <= m.rows(); ++i) o << " " << (m.used_elements() == 0 && m.row_ptr() == nullptr ? Index(0) : m.row_ptr()[i]);
+    o << m.rows() << " " << m.columns();
+    if(m.row_ptr() == nullptr) { o << " 0 0 0"; return; }
+    o << " " << (m.rows() + 1);
+    for(Index i(0); i <= m.rows(); ++i) o << " " << m.row_ptr()[i];
     o << " " << m.used_elements();
     for(Index i(0); i < m.used_elements(); ++i) o << " " << m.col_ind()[i];
     o << " " << m.used_elements();
@@ -155,8 +158,12 @@ namespace c18
   };
 
   // ---------------------------------------------------------------------------------------------------------------
-  // dump: what the assembly loops of GridTransfer see, obtained from the real evaluators
-  //   D nf nc ncells nchild  { cmap  ncp { w  C-row }  { fmap  np { w F-row C-row [xf.. xc..] } }*nchild }*ncells
+  // dump: what the assembly loops of GridTransfer see, obtained from the real evaluators -- indexed by MESH cell
+  // numbers (no cell lookup is done here: the two permutation lookups and calc_fcell are part of the model)
+  //   D nf nc ncells nchild nfine npts  CP <coarse get_perm positions | 0>  FP <fine get_inv_perm positions | 0>
+  //     PAT <row_ptr> <col_ind>                                   layout of the prolongation matrix (2-level graph)
+  //     { cmap  ncp { w C-row }  { C-row [xc..] }*npts*nchild }*ncells     coarse cells in mesh order
+  //     { fmap  { w F-row [xf..] }*npts }*nfine                            fine cells in mesh order
   // ---------------------------------------------------------------------------------------------------------------
   template<typename FineSpace_, typename CoarseSpace_>
   void dump(std::ostream& o, const FineSpace_& fine_space, const CoarseSpace_& coarse_space, const String& cubature_name, bool with_points)
@@ -197,15 +204,29 @@ namespace c18
     CubatureRuleType refine_cubature;
     Cubature::RefineFactoryCore::create(refine_cubature, fine_cubature);
 
-    const Geometry::Intern::CoarseFineCellMapping<typename FineSpace_::MeshType, typename CoarseSpace_::MeshType>
-      cfmapping(fine_trafo.get_mesh(), coarse_trafo.get_mesh());
     const Adjacency::Permutation& coarse_perm = coarse_trafo.get_mesh().get_mesh_permutation().get_perm();
     const Adjacency::Permutation& fine_perm = fine_trafo.get_mesh().get_mesh_permutation().get_inv_perm();
     const int dim = ShapeType::dimension;
+    const Index ncells = coarse_trafo_eval.get_num_cells();
+    const Index nfine = fine_trafo_eval.get_num_cells();
+    const Index nchild = (ncells > 0 ? nfine / ncells : Index(0));
+    const int npts = fine_cubature.get_num_points();
 
     o << "D " << fine_space.get_num_dofs() << " " << coarse_space.get_num_dofs() << " "
-      << coarse_trafo_eval.get_num_cells() << " " << cfmapping.get_num_children();
-    for(Index ccell(0); ccell < coarse_trafo_eval.get_num_cells(); ++ccell)
+      << ncells << " " << nchild << " " << nfine << " " << npts;
+    o << " CP " << coarse_perm.size();
+    for(Index i(0); i < coarse_perm.size(); ++i) o << " " << coarse_perm.get_perm_pos()[i];
+    o << " FP " << fine_perm.size();
+    for(Index i(0); i < fine_perm.size(); ++i) o << " " << fine_perm.get_perm_pos()[i];
+    {
+      MatrixType pat;
+      Assembly::SymbolicAssembler::assemble_matrix_2lvl(pat, fine_space, coarse_space);
+      o << " PAT " << (pat.rows() + 1);
+      for(Index i(0); i <= pat.rows(); ++i) o << " " << pat.row_ptr()[i];
+      o << " " << pat.used_elements();
+      for(Index i(0); i < pat.used_elements(); ++i) o << " " << pat.col_ind()[i];
+    }
+    for(Index ccell(0); ccell < ncells; ++ccell)
     {
       coarse_trafo_eval.prepare(ccell);
       coarse_space_eval.prepare(coarse_trafo_eval);
@@ -213,50 +234,48 @@ namespace c18
       coarse_dof_mapping.prepare(ccell);
       o << " " << ncl;
       for(int j(0); j < ncl; ++j) o << " " << coarse_dof_mapping.get_index(j);
+      coarse_dof_mapping.finish();
       // coarse cubature loop (truncation: coarse mass matrix)
-      o << " " << fine_cubature.get_num_points();
-      for(int k(0); k < fine_cubature.get_num_points(); ++k)
+      o << " " << npts;
+      for(int k(0); k < npts; ++k)
       {
         coarse_trafo_eval(coarse_trafo_data, fine_cubature.get_point(k));
         coarse_space_eval(coarse_space_data, coarse_trafo_data);
         o << " " << Q(coarse_trafo_data.jac_det * fine_cubature.get_weight(k)).str();
         for(int j(0); j < ncl; ++j) o << " " << Q(coarse_space_data.phi[j].value).str();
       }
-      const Index ccell_2lvl = (coarse_perm.empty() ? ccell : coarse_perm.map(ccell));
-      for(Index child(0); child < cfmapping.get_num_children(); ++child)
+      // coarse basis at the points of the refined rule: point l = child * npts + k
+      for(int l(0); l < int(nchild) * npts; ++l)
       {
-        const Index fcell_2lvl = cfmapping.calc_fcell(ccell_2lvl, child);
-        const Index fcell = (fine_perm.empty() ? fcell_2lvl : fine_perm.map(fcell_2lvl));
-        fine_trafo_eval.prepare(fcell);
-        fine_space_eval.prepare(fine_trafo_eval);
-        const int nfl = fine_space_eval.get_num_local_dofs();
-        fine_dof_mapping.prepare(fcell);
-        o << " " << nfl;
-        for(int i(0); i < nfl; ++i) o << " " << fine_dof_mapping.get_index(i);
-        fine_dof_mapping.finish();
-        o << " " << fine_cubature.get_num_points();
-        for(int k(0); k < fine_cubature.get_num_points(); ++k)
-        {
-          const int l(int(child) * fine_cubature.get_num_points() + k);
-          fine_trafo_eval(fine_trafo_data, fine_cubature.get_point(k));
-          coarse_trafo_eval(coarse_trafo_data, refine_cubature.get_point(l));
-          fine_space_eval(fine_space_data, fine_trafo_data);
-          coarse_space_eval(coarse_space_data, coarse_trafo_data);
-          o << " " << Q(fine_trafo_data.jac_det * fine_cubature.get_weight(k)).str();
-          for(int i(0); i < nfl; ++i) o << " " << Q(fine_space_data.phi[i].value).str();
-          for(int j(0); j < ncl; ++j) o << " " << Q(coarse_space_data.phi[j].value).str();
-          if(with_points)
-          {
-            for(int d(0); d < dim; ++d) o << " " << Q(fine_trafo_data.img_point[d]).str();
-            for(int d(0); d < dim; ++d) o << " " << Q(coarse_trafo_data.img_point[d]).str();
-          }
-        }
-        fine_space_eval.finish();
-        fine_trafo_eval.finish();
+        coarse_trafo_eval(coarse_trafo_data, refine_cubature.get_point(l));
+        coarse_space_eval(coarse_space_data, coarse_trafo_data);
+        for(int j(0); j < ncl; ++j) o << " " << Q(coarse_space_data.phi[j].value).str();
+        if(with_points)
+          for(int d(0); d < dim; ++d) o << " " << Q(coarse_trafo_data.img_point[d]).str();
       }
-      coarse_dof_mapping.finish();
       coarse_space_eval.finish();
       coarse_trafo_eval.finish();
+    }
+    for(Index fcell(0); fcell < nfine; ++fcell)
+    {
+      fine_trafo_eval.prepare(fcell);
+      fine_space_eval.prepare(fine_trafo_eval);
+      const int nfl = fine_space_eval.get_num_local_dofs();
+      fine_dof_mapping.prepare(fcell);
+      o << " " << nfl;
+      for(int i(0); i < nfl; ++i) o << " " << fine_dof_mapping.get_index(i);
+      fine_dof_mapping.finish();
+      for(int k(0); k < npts; ++k)
+      {
+        fine_trafo_eval(fine_trafo_data, fine_cubature.get_point(k));
+        fine_space_eval(fine_space_data, fine_trafo_data);
+        o << " " << Q(fine_trafo_data.jac_det * fine_cubature.get_weight(k)).str();
+        for(int i(0); i < nfl; ++i) o << " " << Q(fine_space_data.phi[i].value).str();
+        if(with_points)
+          for(int d(0); d < dim; ++d) o << " " << Q(fine_trafo_data.img_point[d]).str();
+      }
+      fine_space_eval.finish();
+      fine_trafo_eval.finish();
     }
   }
 
@@ -360,6 +379,8 @@ namespace c18
       // 4. restriction = transpose of the prolongation (transfer_asm.hpp)
       MatrixType rest = prol_d.transpose();
       o << " R "; show_dense(o, rest);
+      o << " PC "; show_csr(o, prol_d);
+      o << " RC "; show_csr(o, rest);
       // 5. matrix-free prolongation
       VectorType xc(nc), yf(nf);
       for(Index i(0); i < nc; ++i) xc(i, xv[i]);
